@@ -42,7 +42,9 @@ def main():
     ran.append("with change: cargo test --test demo_%s -> %s" % (pid, "fails" if demo_bug else "DOES NOT FAIL"))
     rc, out1 = sh("%s cargo test --offline --lib 2>&1 | grep 'test result'" % env, cwd=wt)
     rc, out2 = sh("%s cargo test --offline --doc 2>&1 | grep 'test result'" % env, cwd=wt)
-    suite_ok = "73 passed; 0 failed" in out1 and "0 failed" in out2 and "passed" in out2
+    m1 = re.search(r"(\d+) passed; (\d+) failed", out1)
+    # a change may bring unit tests of its own; the 73 existing ones must all still pass
+    suite_ok = bool(m1) and int(m1.group(1)) >= 73 and m1.group(2) == "0" and "0 failed" in out2 and "passed" in out2
     ran.append("with change: cargo test --lib / --doc -> %s | %s" % (out1.strip(), out2.strip()))
     # 2. run the checks against /repo with the change applied
     rc, out = sh("git -C /repo status --short")
